@@ -135,11 +135,17 @@ impl Txtpp {
         }
 
         loop {
+            #[cfg(feature = "verif")]
+            crate::verif::coordinator_poll();
             let data = match self.recv.try_recv() {
                 Ok(data) => data,
                 Err(TryRecvError::Empty) => {
                     if self.progress.is_done() {
                         break;
+                    }
+                    #[cfg(feature = "verif")]
+                    if crate::verif::coordinator_idle() {
+                        continue;
                     }
                     // no data available, wait for a bit
                     std::thread::sleep(std::time::Duration::from_millis(100));
@@ -244,7 +250,11 @@ impl Txtpp {
             .print_status(verbs::SCANNING, &dir.to_string(), Color::Yellow, true);
         let send = self.send.clone();
         log::info!("scanning directory: {dir}");
+        #[cfg(feature = "verif")]
+        let ticket = crate::verif::task_spawned("scan", &dir.to_string(), 0);
         self.threadpool.execute(move || {
+            #[cfg(feature = "verif")]
+            let _guard = ticket.begin();
             let result = scan_dir(&dir, recursive);
             send.send(TaskResult::ScanDir(result))
                 .expect("cannot send result")
@@ -278,7 +288,12 @@ impl Txtpp {
         let mode = self.config.mode.clone();
         let trailing_newline = self.config.trailing_newline;
         log::info!("processing file: {file}");
+        #[cfg(feature = "verif")]
+        let ticket =
+            crate::verif::task_spawned("pp", &file.to_string(), if is_first_pass { 1 } else { 2 });
         self.threadpool.execute(move || {
+            #[cfg(feature = "verif")]
+            let _guard = ticket.begin();
             let result = preprocess(&shell, &file, mode, is_first_pass, trailing_newline);
             send.send(TaskResult::Preprocess(result))
                 .expect("cannot send result")
@@ -290,6 +305,8 @@ impl Txtpp {
 impl Drop for Txtpp {
     fn drop(&mut self) {
         log::info!("cleaning up txtpp");
+        #[cfg(feature = "verif")]
+        crate::verif::drain_begin();
         self.threadpool.join();
         // wait for all workers to finish sending their last results, which we will ignore
         loop {
@@ -299,6 +316,10 @@ impl Drop for Txtpp {
                 }
                 Err(TryRecvError::Empty) => {
                     if self.progress.is_done() || self.progress.has_error {
+                        break;
+                    }
+                    #[cfg(feature = "verif")]
+                    if crate::verif::drain_idle() {
                         break;
                     }
                     // no data available, wait for a bit
